@@ -181,6 +181,21 @@ func c16Case(c *Ctx) {
 		names := presetNames[:4]
 		if c.Case == 3 {
 			names = presetNames[4:]
+			// a caller lowered the retry knobs for a while and used the presets meanwhile; defaults restored:
+			// the presets (shared package-level values) must be what their names say again
+			func() {
+				defer knobs(0, 1e-9)()
+				for _, n := range presetNames {
+					presetByName[n]()
+				}
+			}()
+			func() {
+				defer knobs(1, 1)()
+				for _, n := range presetNames {
+					presetByName[n]()
+				}
+			}()
+			c.Count("knob_excursions", 2)
 		}
 		for _, name := range names {
 			c16Preset(c, name)
@@ -196,6 +211,13 @@ func c16Case(c *Ctx) {
 			return
 		}
 		lines := strings.Split(strings.TrimRight(string(data), "\n"), "\n")
+		// use the list first the way every caller does: it must still be the shipped list afterwards
+		if wl, err := spg.NewWordList(list); err == nil {
+			r := spg.NewWLRecipe(3, wl)
+			r.Capitalize = spg.CSOne
+			runGen(r, nil)
+			c.Exec(2)
+		}
 		c.Exec(len(list))
 		c.Distinct("nontrivial", "list:"+name)
 		c.Count("list_entries_compared", int64(len(list)))
